@@ -102,17 +102,23 @@ template <class A> static Verdict check_type(const std::string &text, bool s2p, 
   // ---- escape, both entry points, output buffer of exactly 3n+1 / 6n+1 characters
   std::string want = m_esc(text, s2p, nb);
   VF_REQUIRE(want.size() <= (nb ? 6 : 3) * n, "ORACLE: model output longer than the documented bound");
-  for (int entry = 0; entry < 2; entry++) {
+  // entries: 0 uriEscape, 1 uriEscapeEx, 2 / 3 uriEscapeEx with both strings in one arena: the output buffer directly
+  // behind the unterminated input range (2), the input range directly behind the output buffer (3)
+  for (int entry = 0; entry < 4; entry++) {
     size_t cap = (nb ? 6 : 3) * n + 1;
+    if (entry >= 2 && (n == 0 || (cap + n) * sizeof(Ch) > gout().capacity())) continue;  // (an empty input range would coincide with the output: refused by design)
     Ch *out = gout().template right_chars<Ch>(cap);
-    for (size_t i = 0; i < cap; i++) out[i] = (Ch)0xAA;
     // input flush right as well (read-only, exact size; terminator only for the NUL-terminated entry)
     Ch *src = gin().template right_chars<Ch>(n + (entry == 0 ? 1 : 0));
+    if (entry == 2) { src = gout().template right_chars<Ch>(n + cap); out = src + n; }
+    if (entry == 3) { out = gout().template right_chars<Ch>(cap + n); src = out + cap; }
+    for (size_t i = 0; i < cap; i++) out[i] = (Ch)0xAA;
     if (n) memcpy(src, in.data(), n * sizeof(Ch));
     if (entry == 0) src[n] = 0;
-    gin().readonly(true);
+    if (entry < 2) gin().readonly(true);
     Ch *end = entry == 0 ? A::Escape(src, out, s2p, nb) : A::EscapeEx(src, src + n, out, s2p, nb);
-    gin().readonly(false);
+    if (entry < 2) gin().readonly(false);
+    if (entry >= 2) VF_REQUIRE(n == 0 || memcmp(src, in.data(), n * sizeof(Ch)) == 0, "%s: escape modified its input (kept next to the output buffer)", A::name());
     stats().sub_evaluations++;
     VF_REQUIRE(end != nullptr, "%s: escape returned NULL", A::name());
     VF_REQUIRE(end >= out && end < out + cap, "%s: returned pointer outside the output buffer", A::name());
